@@ -29,7 +29,7 @@ ClassesCore == {c \in ClassesAll : c.name \in {"bool", "int8", "int64", "uint64"
                                                  "cat_str", "Int64", "boolean"}}
 
 RowsQuick == {0, 1, 2, 3, 8, 9}
-RowsThorough == {0, 1, 2, 3, 7, 8, 9, 17}
+RowsThorough == {0, 1, 2, 3, 8, 9, 17}
 PatsAll == {"none", "all", "first", "last", "alt", "some"}
 PatsQuick == {"none", "all", "last", "alt"}
 ModesAll == {"true", "false", "infer"}
@@ -39,6 +39,7 @@ RppQuick == {1, 3, 100}
 RppAll == {1, 2, 3, 8, 100}
 RgoQuick == {0, 2}
 RgoAll == {0, 1, 2, 3, 5}
+RgoThorough == {0, 2, 3}
 StatsAll == {"true", "false", "auto"}
 StatsQuick == {"true", "auto"}
 V12 == {1, 2}
